@@ -43,8 +43,8 @@ DEPLOYMENTS = [
     ("jr", 1.5),
     ("grpc(mem)", 1.2),
     ("grpc(jf-sym)", 1.0),
-    ("cached", 0.45),
-    ("rdb", 0.45),
+    ("cached", 0.4),
+    ("rdb", 0.4),
 ]
 
 EVIDENCE = {
@@ -66,7 +66,6 @@ EVIDENCE = {
 MK = "c20leak"
 MKF = 987654.321
 MKSTEP = 424242
-MARKERS = (MK, "987654.321", "424242")
 
 NODEEPCOPY_KINDS = {
     "study.get_trials(deepcopy=False)",
@@ -353,27 +352,28 @@ class _Gen:
 def gen_plan(seed: int, run: int, tier: str) -> dict:
     rng = common.rng_for(seed, run, "work")
     kind = common.weighted(rng, deployments())
-    mode = "threads" if rng.random() < 0.4 else "same"
+    sql = kind in ("rdb", "cached")  # SQLite: ~20 ms per call, so shorter histories
+    mode = "threads" if rng.random() < (0.3 if sql else 0.38) else "same"
     nobj = 1 if rng.random() < 0.8 else 2
     big = tier != "quick"
     g = _Gen(rng, nobj)
-    setup = [g.write() for _ in range(rng.randint(1, 6))]
+    setup = [g.write() for _ in range(rng.randint(1, 3 if sql else 6))]
     if not g.live and rng.random() < 0.8:
         setup.append(g.write("study.ask"))
     tasks: dict[str, list] = {}
     if mode == "same":
         ops = []
-        for _ in range(rng.randint(8, 34 if big else 22)):
+        for _ in range(rng.randint(5, 12) if sql else rng.randint(8, 34 if big else 22)):
             r = rng.random()
             ops.append(g.read() if r < 0.42 else (g.write() if r < 0.9 else g.leak()))
         tasks["main"] = ops
     else:
         # the generator's picture follows the writer; reader ops only need trial numbers
         rd = []
-        for _ in range(rng.randint(3, 12 if big else 8)):
+        for _ in range(rng.randint(2, 5) if sql else rng.randint(3, 12 if big else 8)):
             rd.append(g.read(own_live=False) if rng.random() < 0.85 else g.leak(own_live=False))
         wr = []
-        for _ in range(rng.randint(4, 18 if big else 12)):
+        for _ in range(rng.randint(3, 7) if sql else rng.randint(4, 18 if big else 12)):
             r = rng.random()
             wr.append(g.write() if r < 0.72 else (g.read() if r < 0.95 else g.leak()))
         tasks["reader"] = rd
@@ -509,6 +509,41 @@ def _flat(x: Any) -> dict[str, str]:
     return {"/value": _canon(x)}
 
 
+def _find_marker(x: Any, path: str) -> str | None:
+    """Structural search for what the leak probe writes into a deep copy (exact marker string
+    as key/element, exact marker float, exact marker step) - never a substring search."""
+    if isinstance(x, str):
+        return path if x == MK else None
+    if isinstance(x, bool) or x is None:
+        return None
+    if isinstance(x, numbers.Real):
+        return path if (x == MKF or x == MKSTEP) else None
+    if isinstance(x, dict):
+        for k, v in x.items():
+            r = _find_marker(k, path + "/<key>") or _find_marker(v, "%s/%r" % (path, k))
+            if r is not None:
+                return r
+        return None
+    if isinstance(x, (list, tuple)):
+        for i, v in enumerate(x):
+            r = _find_marker(v, "%s[%d]" % (path, i))
+            if r is not None:
+                return r
+        return None
+    d = getattr(x, "__dict__", None)
+    if d is not None and _fields(x) is not None:
+        return _find_marker({k: v for k, v in d.items() if k not in ("_number", "_trial_id", "_study_id")}, path + "." + type(x).__name__)
+    return None
+
+
+def _quick(x: Any) -> str:
+    """Cheap complete dump (C-level repr of the attribute dicts); only when it differs is the
+    canonical fingerprint recomputed and compared."""
+    if isinstance(x, (list, tuple)):
+        return repr([getattr(e, "__dict__", e) for e in x])
+    return repr(getattr(x, "__dict__", x))
+
+
 def _h(flat: dict[str, str]) -> str:
     m = hashlib.blake2b(digest_size=8)
     for k in sorted(flat):
@@ -565,7 +600,7 @@ class _Run:
     def register(self, obj: Any, kind: str, task: str) -> None:
         with self.sim.atomic():
             flat = _flat(obj)
-            self.registry.append({"obj": obj, "fp": flat, "kind": kind, "task": task, "at_write": self.nwrites_ok, "n": len(self.trace)})
+            self.registry.append({"obj": obj, "fp": flat, "quick": _quick(obj), "kind": kind, "task": task, "at_write": self.nwrites_ok, "n": len(self.trace)})
             self.sim.count("objects_fingerprinted")
             self.sim.note("read", task, kind, _h(flat))
 
@@ -573,8 +608,12 @@ class _Run:
         with self.sim.atomic():
             lw = self.last_write
             for ei, e in enumerate(self.registry):
+                q = _quick(e["obj"])
+                if q == e["quick"]:
+                    continue
                 new = _flat(e["obj"])
                 old = e["fp"]
+                e["quick"] = q
                 if new == old:
                     continue
                 keys = sorted(k for k in set(new) | set(old) if new.get(k) != old.get(k))
@@ -609,13 +648,12 @@ class _Run:
 
     def leak_check(self, obj: Any, kind: str, via: str) -> None:
         with self.sim.atomic():
-            s = _canon(obj)
-            for m in MARKERS:
-                if m in s:
-                    i = s.index(m)
-                    self.verdict = (self.prefix + "copy-leak|%s" % kind, "after mutating the result of %s, a later %s shows the mutation: ...%s...\n  history:\n    %s" % (kind, via, s[max(0, i - 120) : i + 60], "\n    ".join(self.trace[-10:])))
-                    self.sim.note("violation-leak", kind, via)
-                    raise _Stop()
+            where = _find_marker(obj, "")
+            if where is not None:
+                s = _canon(obj)
+                self.verdict = (self.prefix + "copy-leak|%s" % kind, "after mutating the result of %s, a later %s shows the mutation at %s: %s\n  history:\n    %s" % (kind, via, where, s[:600], "\n    ".join(self.trace[-10:])))
+                self.sim.note("violation-leak", kind, via)
+                raise _Stop()
 
     # ------------------------------------------------------------------ helpers
     def _states(self, f: Any) -> Any:
@@ -988,7 +1026,11 @@ class _Run:
             except Exception:
                 pass
 
-    def setup(self) -> None:
+    def create_study(self) -> None:
+        """Harness thread, before the first task: not traced, never yields.  (create_study is
+        kept out of the traced tasks on purpose: the number of line events of the list
+        comprehension in optuna.create_study differs between the first and the later
+        executions in one interpreter, which would make schedules depend on process history.)"""
         import optuna
 
         cfg = self.cfg
@@ -999,6 +1041,10 @@ class _Run:
             sampler=optuna.samplers.RandomSampler(seed=cfg["sampler_seed"]),
         )
         self.sid = self.study._study_id
+        if hasattr(self.st, "remove_session"):
+            self.st.remove_session()
+
+    def setup(self) -> None:
         self.run_ops(self.plan["setup"], "setup")
 
 
@@ -1020,6 +1066,7 @@ def _run(plan: dict, sim: sched.Sim, ch: sched.Chooser, dep: deploy.Deployment) 
     r = _Run(plan, sim, dep)
     proc = sim.proc("P0")
     r.st = dep.client(proc)
+    r.create_study()
     tasks = [sim.spawn(proc, "setup", r.setup)]
     status = sim.run()
     if status == "ok" and tasks[0].exc is None and r.verdict is None:
